@@ -177,6 +177,7 @@ func propC13(w *World, r *Report) {
 	br13 := newBoundsRun(w)
 	RunLosslessFor(w, r, "C13", br13)
 	runNarrowBoundIn(w, r, br13, "/cff")
+	runFlagReduceIn(w, r, "/cff")
 	var cffFns []*ssa.Function
 	for _, f := range w.LibFuncs() {
 		if strings.HasSuffix(fnPkgPath(f), "/cff") {
